@@ -275,7 +275,10 @@ def loopOptsS (st : LoopSt) (ts : List XTok) : Option LoopSt :=
   match ts with
   | [] => some st                                            -- TOKEN_EOF: break
   | .kw "reversed" :: r => loopOptsS { st with reversed := true } r
-  | .comma :: r => if headIs (· == .comma) r then none else loopOptsS st r
+  | .comma :: r =>
+    -- `arg_token = next(tokens)` has already consumed the comma, so `tokens.peek` is the token *after* the
+    -- next one: strict mode rejects `, X ,` here (not `, ,`)
+    if headIs (· == .comma) (r.drop 1) then none else loopOptsS st r
   | .kw "limit" :: .colon :: r =>
     match primS r with
     | some (v, r1) => loopOptsS { st with limit := some v } r1.1
